@@ -121,14 +121,25 @@ class Monitor:
     """Counts enumeration inside pydsdl._bit_length_set._symbolic by monkey-patching (restored afterwards)."""
 
     def __init__(self):
-        from pydsdl._bit_length_set import _symbolic as S
         import itertools
 
-        self.S = S
         self.total = 0
         self.expands = 0
         self.calls = []
         self.stack = []
+        self.saved = []
+        self.saved_itertools = None
+        self.attach_error = None
+        try:
+            from pydsdl._bit_length_set import _symbolic as S
+            self.S = S
+            self._attach(S, itertools)
+        except Exception as ex:  # pylint: disable=broad-except
+            # the internals the monitor hooks into are gone (renamed / restructured): the correspondence cannot be observed
+            self.attach_error = "%s: %s" % (type(ex).__name__, str(ex)[:200])
+            self.close()
+
+    def _attach(self, S, itertools):
         mon = self
 
         class CountingItertools:
@@ -149,7 +160,6 @@ class Monitor:
 
         self.saved_itertools = S.itertools
         S.itertools = CountingItertools()
-        self.saved = []
         kinds = {S.NullaryOperator: "KLeaf", S.PaddingOperator: "KPad", S.ConcatenationOperator: "KCat",
                  S.RepetitionOperator: "KRep", S.RangeRepetitionOperator: "KRRep", S.UnionOperator: "KUni"}
         for cls, kind in kinds.items():
@@ -191,6 +201,9 @@ class Monitor:
                     k = 0
                 else:
                     sizes, k = [], 0
+            except AttributeError as ex:  # private attributes renamed: the correspondence cannot be observed (not a property failure)
+                mon.attach_error = "AttributeError: %s" % str(ex)[:200]
+                sizes, k = [], 0
             finally:
                 mon.stack = saved_stack
                 mon.total = saved_total
@@ -209,9 +222,12 @@ class Monitor:
         return expand
 
     def close(self):
-        self.S.itertools = self.saved_itertools
+        if self.saved_itertools is not None:
+            self.S.itertools = self.saved_itertools
+            self.saved_itertools = None
         for cls, name, f in self.saved:
             setattr(cls, name, f)
+        self.saved = []
 
 
 def run_impl(cases):
@@ -225,6 +241,7 @@ def run_impl(cases):
     for case in cases:
         variants = []
         fail = None
+        drift = None
         for cap in SWEEP:
             t = instantiate(case["type"], cap)
             d = Path(tempfile.mkdtemp(dir=scratch))
@@ -264,6 +281,8 @@ def run_impl(cases):
                 signal.setitimer(signal.ITIMER_PROF, 0)
                 signal.alarm(0)
                 mon.close()
+                if mon.attach_error:
+                    drift = "the enumeration monitor could not attach to pydsdl._bit_length_set._symbolic (%s)" % mon.attach_error
                 shutil.rmtree(d, ignore_errors=True)
             elapsed = time.process_time() - started
             if elapsed > CEILING_S - 1 and not timed_out:
@@ -284,8 +303,30 @@ def run_impl(cases):
             fail = "numeric expansion was invoked %s times" % [v["expands"] for v in variants]
         if fail:
             ob["pred_fail"] = fail
+        if drift and not fail:
+            ob["corr_fail"] = drift
         out.append(ob)
     return out
+
+
+def _lcm(a, b):
+    import math
+    return a * b // math.gcd(a, b)
+
+
+def is_property_failure(case, obs):
+    """True when the implementation's own observations contradict the property's statement on this input (as opposed to a mere
+    difference from the model's closed-form enumeration counts, which is a broken correspondence)."""
+    if obs.get("pred_fail"):
+        return True
+    for v in obs.get("variants", []):
+        for c in v["calls"]:
+            d = max(1, c["d"])
+            if c["out"] > d or any(sz > _lcm(8, d) for sz in c["sizes"]):
+                return True  # a residue set larger than the queried divisor
+            if c["local"] > _lcm(8, d) ** 2 * max(1, c["k"] + 1) * 64:
+                return True  # an enumeration far beyond anything a residue computation needs
+    return False
 
 
 def emit(case, obs):
